@@ -281,7 +281,16 @@ func emitRecord(rc recCase) (payloads []string, pan string) {
 			}
 		}
 	}
-	pan = catch(func() { l.LogAttrs(context.Background(), slog.Level(rc.Level), rc.msg(), args...) })
+	if rc.Entry == "WriteThru-pc0" {
+		// the explicit-timestamp entry point with no program counter (0): no caller frame is known
+		as := make(slog.Attrs, 0, len(args))
+		for _, a := range args {
+			as = append(as, a.(slog.Attr))
+		}
+		pan = catch(func() { slog.VerifEntryOf(l).WriteThru(context.Background(), slog.Level(rc.Level), fixedTime, 0, rc.msg(), as) })
+	} else {
+		pan = catch(func() { l.LogAttrs(context.Background(), slog.Level(rc.Level), rc.msg(), args...) })
+	}
 	for _, e := range rec.events {
 		payloads = append(payloads, e.Payload)
 	}
@@ -472,6 +481,9 @@ func recSig(rc recCase) string {
 	}
 	if rc.NameQ != "" {
 		s += " logger=" + rc.NameQ
+	}
+	if rc.Entry != "" {
+		s += " via=" + rc.Entry
 	}
 	if rc.Named {
 		s += " named"
